@@ -81,6 +81,7 @@ func GenC12(verifSeed uint64, run int) *Scenario {
 	plan.SchedSeed = g.Uint64()
 	plan.RefAfter = g.Bool(0.5)
 	plan.InstrSwitchP = Pick(g, []float64{0.002, 0.01, 0.05, 0.2})
+	plan.InstrWanted = g.Bool(0.6)
 	return &Scenario{Property: "C12", VerifSeed: verifSeed, Run: run, RunSeed: seed, World: w, C12: plan}
 }
 
@@ -182,7 +183,7 @@ func RunC12(rt *Runtime, sc *Scenario) RunResult {
 	if !plan.Replay && plan.Mode != "free" {
 		// the thorough tier builds against the ast-instrumented copy: then
 		// every function entry and loop body of nfpm is a yield point
-		plan.Instr = instrAvailable
+		plan.Instr = instrAvailable && plan.InstrWanted
 	}
 	gmp := plan.GoMaxProcs
 	if gmp <= 0 {
